@@ -199,17 +199,24 @@ def trace_encode(fx, version, level, boosted, mask_in=None, eci=False, sa_info=N
             # keyword arguments are put where the stage's own signature has them: what matters is which value reaches which
             # parameter, not how the call is spelt
             a, k = list(a), dict(k)
+            a0, k0 = tuple(a), dict(k)
             for p_ in pnames[len(a):]:
                 if p_ in k:
                     a.append(k.pop(p_))
                 else:
                     break
             a = tuple(a)
-            buf = next((x for x in a if isinstance(x, B)), None)
+            # recorded as the reference signature sees the call: a parameter the reference does not have is dropped when it is
+            # handed its default, and shows up among the keywords otherwise
+            from .. import refsig
+            if refsig.ref_signature('encoder', name) is not None:
+                a, k_rest, k_extra = refsig.reference_view(fx.forest, 'encoder', name, a0, k0)
+                k = dict(k_rest, **{f'<new parameter {x_}>': v_ for x_, v_ in k_extra.items()})
+            buf = next((x for x in list(a0) + list(k0.values()) if isinstance(x, B)), None)
             rec.append((name, a, k, len(buf) if buf is not None else None))
             if name in run_real or (policy == 'real' and result is None):
                 # recorded, then the repository's own stage runs on the bit buffer (its return value may be used by the caller)
-                return FuncVal(fx.fn('encoder', name), genv_box[0], it)(*a, **k)
+                return FuncVal(fx.fn('encoder', name), genv_box[0], it)(*a0, **k0)
             if buf is not None and grow:
                 buf.bits.extend([0] * grow)
             if isinstance(policy, tuple) and result is None:
@@ -386,17 +393,22 @@ class SymbolTrace:
 
             def f(*a, **k):
                 a, k = list(a), dict(k)
+                a0, k0 = tuple(a), dict(k)
                 for p_ in pnames[len(a):]:
                     if p_ in k:
                         a.append(k.pop(p_))
                     else:
                         break
                 a = tuple(a)
-                buf = next((x for x in a if isinstance(x, B)), None)
+                from .. import refsig
+                if refsig.ref_signature('encoder', name) is not None:
+                    a, k_rest, k_extra = refsig.reference_view(fx.forest, 'encoder', name, a0, k0)
+                    k = dict(k_rest, **{f'<new parameter {x_}>': v_ for x_, v_ in k_extra.items()})
+                buf = next((x for x in list(a0) + list(k0.values()) if isinstance(x, B)), None)
                 entry = (name, a, k, len(buf) if buf is not None else None)
                 trace.calls.append(entry)
                 if policy == 'real' and result is None:
-                    return FuncVal(fx.fn('encoder', name), trace.genv, trace.interp)(*a, **k)
+                    return FuncVal(fx.fn('encoder', name), trace.genv, trace.interp)(*a0, **k0)
                 if buf is not None and grow:
                     buf.bits.extend([0] * grow)
                 if isinstance(policy, tuple) and result is None:
